@@ -14,6 +14,7 @@
   for ALL histories (lists of operations) of the session machine `step`.
 -/
 import PercevalModel.Lemmas.C16
+import PercevalModel.Lemmas.C16More
 
 namespace PM.C16
 open PM.SM
@@ -811,5 +812,331 @@ theorem noise_before_or_after_conversion (pf : Platform) (p rp : Exp) (hwf : p.W
     exact (payload_configured_present pf rp cmd cl il kw e' pl h).2.2.2.2.2.2 _ hnoise
   · intro n e' pl h
     exact (payload_configured_present pf _ cmd cl il kw e' pl h).2.2.2.2.2.2 n rfl
+
+/-! ## `n_user + n_heralds` IS the photon number of the transmitted full-size state
+
+`constraints_enforced` is stated on the quantity the code computes: photons of the stored state on the
+modes of interest (`remove_modes`) + sum of the heralds' expected values.  The statements below close
+the gap to the state that is actually transmitted: whenever the stored input is *fresh* (`InputFresh`:
+it carries every herald's expected count on the herald's mode — what `with_input` and the repaired
+`from_local_processor` produce, and what every operation except a later `add_herald` keeps), that
+quantity is the photon number of the transmitted state itself, so the platform's photon window was
+enforced on the very state the platform receives. -/
+
+/-- **photons_user_plus_heralds.**  For every experiment with distinct herald modes and every state `t`
+that carries each herald's expected photon count on the herald's mode:
+`n_user + n_heralds = n(t)` — the photons left after `remove_modes(herald modes)` plus the sum of the
+heralds' values is the photon number of the full-size state. -/
+theorem photons_user_plus_heralds (e : Exp) (hn : (heraldModes e).Nodup) (t : List Nat)
+    (hh : ∀ k v, (k, v) ∈ e.heralds → t[k]? = some v) :
+    (removeModes (heraldModes e) 0 t).sum + heraldSum e = t.sum :=
+  user_plus_heralds e.heralds t hn hh
+
+/-- non-vacuity: the heralded CNOT with its full-size input `|1,0,1,0,1,1>` -/
+example : (heraldModes heraldedCnot).Nodup ∧ heraldedCnot.heralds ≠ [] ∧
+    ∃ t, heraldedCnot.input = some t ∧ InputFresh heraldedCnot := ⟨by decide, by decide, _, rfl, by decide⟩
+
+/-- the freshness hypothesis cannot be dropped: a herald added AFTER `with_input` leaves a stored state
+(here `|1,0,0>`, herald `1` on mode 1 added later) whose photon number (1) is not the checked quantity
+(1 + 1): this well-formed, reachable experiment is exactly the residue named in the manifest note -/
+example : ∃ e : Exp, e.WF ∧ ∃ t, e.input = some t ∧
+    (removeModes (heraldModes e) 0 t).sum + heraldSum e ≠ t.sum :=
+  ⟨{ m := 2, size := 3, heralds := [(1, 1)], input := some [1, 0, 0], post := none, noise := none,
+     filter := none, params := [], circ := ⟨0, []⟩, cparams := [] }, by decide, _, rfl, by decide⟩
+
+/-- … reached through the public operations: `with_input` then `add_herald` -/
+example : (exec step (World.init ⟨none, none, none, none, []⟩)
+    [.newRemote false 3 0 [] none, .withInput [1, 0, 0], .addHerald 1 1]).exp.map
+      (fun e => (e.input, e.heralds, e.m)) = some (some [1, 0, 0], [(1, 1)], 2) := by decide
+
+/-- **with_input_photon_number.**  On every well-formed experiment, the state `with_input(s)` stores is
+fresh and has `n(s) + n_heralds` photons. -/
+theorem with_input_photon_number (e : Exp) (hwf : e.WF) (s : List Nat) (e' : Exp)
+    (h : withInput e s = .ok e') :
+    ∃ t, e'.input = some t ∧ InputFresh e' ∧ t.sum = s.sum + heraldSum e := by
+  by_cases hs : s.length = e.m
+  · obtain ⟨e'', t, hw, hin, -, -, -, hr, hh⟩ := (input_includes_heralds e hwf s).2 hs
+    rw [hw] at h; cases h
+    refine ⟨t, hin, withInput_fresh e _ hwf s hw, ?_⟩
+    rw [← photons_user_plus_heralds e hwf.nodup t hh, hr]
+  · rw [withInput_err e s hs] at h; cases h
+
+example : ∃ e', withInput { heraldedCnot with input := none } [1, 0, 1, 0] = .ok e' := ⟨_, rfl⟩
+
+/-- **constraints_enforced_on_transmitted_state.**  For every platform, processor with distinct herald
+modes and a fresh stored input, command, flags and keyword set: if `prepare_job_payload` returns a
+payload, the input state `t` it carries satisfies `n_user + n_heralds = n(t)`, and the photon number of
+`t` ITSELF is inside the platform's photon-count window. -/
+theorem constraints_enforced_on_transmitted_state (pf : Platform) (e : Exp) (cmd : String) (cl il : Bool)
+    (kw : Dict V) (e' : Exp) (pl : Dict V) (hn : (heraldModes e).Nodup) (hfr : InputFresh e)
+    (h : preparePayload pf e cmd cl il kw = (e', .ok pl)) :
+    ∀ t, inputField e il = some t →
+      dget pl "input_state" = some (.state t) ∧
+      (removeModes (heraldModes e) 0 t).sum + heraldSum e = t.sum ∧
+      (∀ mx, pf.maxPhotons = some mx → t.sum ≤ mx) ∧ (∀ mn, pf.minPhotons = some mn → mn ≤ t.sum) := by
+  intro t ht
+  have hsum := photons_user_plus_heralds e hn t (hfr t (inputField_some e il t ht))
+  obtain ⟨-, h1, h2⟩ := (constraints_enforced pf e cmd cl il kw e' pl h).2 t ht
+  refine ⟨(payload_configured_present pf e cmd cl il kw e' pl h).2.2.1 t ht, hsum, ?_, ?_⟩
+  · intro mx hmx; rw [← hsum]; exact h1 mx hmx
+  · intro mn hmn; rw [← hsum]; exact h2 mn hmn
+
+/-- non-vacuity: the heralded CNOT (4 photons, heralds included) on a platform that wants exactly 4 -/
+example : ∃ e' pl, preparePayload ⟨none, none, some 4, some 4, []⟩ heraldedCnot "probs" false false [] = (e', .ok pl) ∧
+    InputFresh heraldedCnot ∧ inputField heraldedCnot false = some [1, 0, 1, 0, 1, 1] := ⟨_, _, rfl, by decide, rfl⟩
+
+/-- **fresh_input_invariant.**  From every session state whose processor is well-formed with a fresh
+stored input, over EVERY history that contains no `add_herald` (all other setters, conversions, payload
+generation, samplers, jobs, executions — in any number and order), the stored input stays fresh. -/
+theorem fresh_input_invariant (w : World) (hw : w.WFInv) (hfr : w.FreshInv) (ops : List Op)
+    (hops : ∀ op ∈ ops, op.isAddHerald = false) : (exec step w ops).FreshInv :=
+  (exec_fresh w ops hops hw hfr).2
+
+/-- the initial state qualifies (so every history WITHOUT `add_herald` from the initial state — heralds
+then come from converted local processors only — keeps the input fresh) -/
+example (pf : Platform) : (World.init pf).WFInv ∧ (World.init pf).FreshInv :=
+  ⟨fun _ h => (by cases h), fun _ h => (by cases h)⟩
+
+/-- **transmitted_photon_number_checked.**  From every such state and over every history without
+`add_herald`: the next payload's input state `t` has `n(t) = n_user + n_heralds`, and `n(t)` is inside
+the platform's photon-count window. -/
+theorem transmitted_photon_number_checked (w : World) (hw : w.WFInv) (hfr : w.FreshInv) (ops : List Op)
+    (hops : ∀ op ∈ ops, op.isAddHerald = false) (cmd : String) (cl il : Bool) (kw : Dict V) (pl : Dict V)
+    (h : (step (exec step w ops) (.prepare cmd cl il kw)).2 = .payload pl) :
+    ∃ e, (exec step w ops).exp = some e ∧ e.WF ∧ InputFresh e ∧
+      ∀ t, inputField e il = some t →
+        dget pl "input_state" = some (.state t) ∧
+        (removeModes (heraldModes e) 0 t).sum + heraldSum e = t.sum ∧
+        (∀ mx, w.pf.maxPhotons = some mx → t.sum ≤ mx) ∧ (∀ mn, w.pf.minPhotons = some mn → mn ≤ t.sum) := by
+  obtain ⟨hw', hfr'⟩ := exec_fresh w ops hops hw hfr
+  have hpf := exec_pf w ops
+  generalize exec step w ops = w' at *
+  cases he : w'.exp with
+  | none => simp [step, he] at h
+  | some e =>
+    cases hp : preparePayload w'.pf e cmd cl il kw with
+    | mk e' r =>
+      cases r with
+      | error err => simp [step, he, hp] at h
+      | ok pl0 =>
+        simp only [step, he, hp, Out.payload.injEq] at h
+        subst h
+        rw [hpf] at hp
+        exact ⟨e, rfl, hw' e he, hfr' e he,
+          constraints_enforced_on_transmitted_state w.pf e cmd cl il kw e' pl0 (hw' e he).nodup (hfr' e he) hp⟩
+
+/-- **… after `with_input`, over every history.**  Whatever happened before (`ops0`: any history from the
+initial state, `add_herald` included), once `with_input(s)` has succeeded and no herald is added
+afterwards (`ops`: any other operations), the next payload's input state `t` has
+`n(t) = n_user + n_heralds` inside the platform's photon-count window. -/
+theorem transmitted_photon_number_checked_after_with_input (pf : Platform) (ops0 : List Op) (s : List Nat)
+    (ops : List Op) (hin : (step (exec step (World.init pf) ops0) (.withInput s)).2 = .done)
+    (hops : ∀ op ∈ ops, op.isAddHerald = false) (cmd : String) (cl il : Bool) (kw : Dict V) (pl : Dict V)
+    (h : (step (exec step (World.init pf) (ops0 ++ .withInput s :: ops)) (.prepare cmd cl il kw)).2 = .payload pl) :
+    ∃ e, (exec step (World.init pf) (ops0 ++ .withInput s :: ops)).exp = some e ∧ e.WF ∧ InputFresh e ∧
+      ∀ t, inputField e il = some t →
+        dget pl "input_state" = some (.state t) ∧
+        (removeModes (heraldModes e) 0 t).sum + heraldSum e = t.sum ∧
+        (∀ mx, pf.maxPhotons = some mx → t.sum ≤ mx) ∧ (∀ mn, pf.minPhotons = some mn → mn ≤ t.sum) := by
+  rw [exec_append, exec_cons] at h ⊢
+  have hw0 : (exec step (World.init pf) ops0).WFInv := exec_wf _ ops0 (fun _ h => by cases h)
+  have hpf0 : (exec step (World.init pf) ops0).pf = pf := exec_pf _ ops0
+  have hw1 := step_wf _ (.withInput s) hw0
+  have hf1 := step_withInput_fresh _ s hw0 hin
+  have := transmitted_photon_number_checked _ hw1 hf1 ops hops cmd cl il kw pl h
+  rw [step_pf, hpf0] at this
+  exact this
+
+/-- non-vacuity: heralds added, input set, filter and noise changed afterwards, payload produced; the
+transmitted state `|1,1,0>` has 2 = 1 + 1 photons -/
+example :
+    (step (exec step (World.init ⟨none, none, some 2, some 2, ["probs"]⟩)
+      [.newRemote false 3 0 [] none, .addHerald 1 1]) (.withInput [1, 0])).2 = .done ∧
+    (match (step (exec step (World.init ⟨none, none, some 2, some 2, ["probs"]⟩)
+      ([.newRemote false 3 0 [] none, .addHerald 1 1] ++ .withInput [1, 0] :: [.setFilter (some 1), .setNoise (some 3)]))
+      (.prepare "probs" false false [])).2 with
+     | .payload pl => dget pl "input_state"
+     | _ => none) = some (.state [1, 1, 0]) := by decide
+
+/-! ## `Job._handle_params`: every supplied argument lands in EXACTLY one of command / mapping
+
+"Lands in" cannot be read off membership alone: `command = {max_samples: None}`,
+`mapping = {max_samples: None}` and the keyword `max_samples=None` end with `(max_samples, None)` in both
+dictionaries although only the command loop consumed the keyword (see the `example` below).  The
+statements therefore say which loop takes the argument — decided by the INPUT dictionaries alone — and
+that the other dictionary's entries under that key are left exactly as they were (`atKey d k`: the
+entries of `d` under key `k`, in order; equality of `atKey` implies equality of `d.get(k)` and of
+membership).  No distinctness assumption on keys or names is needed. -/
+
+/-- **handle_params_keyword_exactly_one.**  When `_handle_params` succeeds, every keyword argument
+`k = v` is taken by exactly one of the two loops (`m₁` = the mapping after the extra positional
+argument, if any, was stored under `max_samples`):
+* the command has an entry `k: None` — then `v` is written into the command and the mapping's entries
+  under `k` are untouched;
+* the command has no entry `k: None` — then the mapping has one, `v` is written into the mapping, and the
+  command's entries under `k` are untouched.
+The two cases exclude each other by their first conjunct. -/
+theorem handle_params_keyword_exactly_one (names : List String) (command mapping : Dict PV) (args : List PV)
+    (kw c m : Dict PV) (h : handleParams names command mapping args kw = .ok (c, m))
+    (k : String) (v : PV) (hkv : dget kw k = some v) :
+    let m₁ := (splitArgs names args mapping).2
+    ((k, PV.none) ∈ command ∧ (k, v) ∈ c ∧ atKey m k = atKey m₁ k) ∨
+    ((k, PV.none) ∉ command ∧ (k, PV.none) ∈ m₁ ∧ (k, v) ∈ m ∧ atKey c k = atKey command k) := by
+  intro m₁
+  obtain ⟨c₁, hb, rfl, rfl, hnil⟩ := handleParams_ok _ _ _ _ _ _ _ h
+  have hc₁ : atKey c₁ k = atKey command k :=
+    bindPositional_atKey_kw kw _ names command c₁ hb k (by rw [hkv]; exact fun h => by cases h)
+  have hmem : (k, PV.none) ∈ c₁ ↔ (k, PV.none) ∈ command := mem_of_atKey_eq _ _ k hc₁ _
+  have hkw₁ := fill_snd_dget c₁ kw k v hkv
+  by_cases hc : (k, PV.none) ∈ command
+  · left
+    rw [if_pos (hmem.mpr hc)] at hkw₁
+    refine ⟨hc, ?_, fill_atKey _ _ k (Or.inr hkw₁)⟩
+    rcases fill_lands c₁ kw k v hkv with h1 | h1
+    · rw [hkw₁] at h1; cases h1
+    · exact h1
+  · right
+    rw [if_neg (fun hh => hc (hmem.mp hh))] at hkw₁
+    have hkw₂ := fill_snd_dget m₁ _ k v hkw₁
+    rw [hnil] at hkw₂
+    have hm₁ : (k, PV.none) ∈ m₁ := by
+      apply Classical.byContradiction
+      intro hno
+      rw [if_neg hno] at hkw₂
+      cases hkw₂
+    refine ⟨hc, hm₁, ?_, ?_⟩
+    · rcases fill_lands m₁ _ k v hkw₁ with h1 | h1
+      · rw [hnil] at h1; cases h1
+      · exact h1
+    · rw [fill_atKey c₁ kw k (Or.inl (fun hh => hc (hmem.mp hh))), hc₁]
+
+/-- … in terms of `d.get(k)` only, for dictionaries with distinct keys (what Python dictionaries are):
+either the command had `k: None`, now has `k: v`, and `mapping.get(k)` is unchanged; or the command did
+not have `k: None`, `command.get(k)` is unchanged, and the mapping had `k: None` and now has `k: v`. -/
+theorem handle_params_keyword_exactly_one_dict (names : List String) (command mapping : Dict PV)
+    (args : List PV) (kw c m : Dict PV) (hcn : (dkeys command).Nodup) (hmn : (dkeys mapping).Nodup)
+    (h : handleParams names command mapping args kw = .ok (c, m))
+    (k : String) (v : PV) (hkv : dget kw k = some v) :
+    let m₁ := (splitArgs names args mapping).2
+    (dget command k = some .none ∧ dget c k = some v ∧ dget m k = dget m₁ k) ∨
+    (dget command k ≠ some .none ∧ dget m₁ k = some .none ∧ dget m k = some v ∧ dget c k = dget command k) := by
+  intro m₁
+  have hm₁n : (dkeys m₁).Nodup := splitArgs_nodup names args mapping hmn
+  obtain ⟨c₁, hb, hc, hm, -⟩ := handleParams_ok _ _ _ _ _ _ _ h
+  have hcn' : (dkeys c).Nodup := by
+    rw [hc, fill_keys]; exact bindPositional_nodup _ _ _ _ _ hb hcn
+  have hmn' : (dkeys m).Nodup := by
+    rw [hm, fill_keys]; exact hm₁n
+  rcases handle_params_keyword_exactly_one names command mapping args kw c m h k v hkv with
+    ⟨h1, h2, h3⟩ | ⟨h1, h2, h3, h4⟩
+  · exact Or.inl ⟨(mem_iff_dget _ hcn _ _).mp h1, (mem_iff_dget _ hcn' _ _).mp h2, dget_of_atKey_eq _ _ _ h3⟩
+  · exact Or.inr ⟨fun hh => h1 ((mem_iff_dget _ hcn _ _).mpr hh), (mem_iff_dget _ hm₁n _ _).mp h2,
+      (mem_iff_dget _ hmn' _ _).mp h3, dget_of_atKey_eq _ _ _ h4⟩
+
+/-- non-vacuity, one keyword for each loop: a `samples` job (`max_samples` is a command parameter) and a
+`samples` job run through the `probs` primitive (`max_samples` is a mapping parameter) -/
+example : handleParams ["max_samples"] [("max_samples", .none)] [] [] [("max_samples", .int 500)] =
+    .ok ([("max_samples", .int 500)], []) := rfl
+example : handleParams [] [] [("max_samples", .none), ("max_shots", .int 100)] [] [("max_samples", .int 500)] =
+    .ok ([], [("max_samples", .int 500), ("max_shots", .int 100)]) := rfl
+
+/-- why exclusivity is not stated as "`(k, v)` is a member of exactly one": with the value `None` the
+pair is in both dictionaries afterwards, although the keyword was consumed once (by the command loop) -/
+example : handleParams [] [("max_samples", .none)] [("max_samples", .none)] [] [("max_samples", .none)] =
+    .ok ([("max_samples", .none)], [("max_samples", .none)]) := rfl
+
+/-- **handle_params_positional_exactly_one.**  When `_handle_params` succeeds (`rest` = the positional
+arguments bound to names, `m₁` = the mapping after the extra positional argument was taken):
+* a positional argument bound to `names[i]` (it is stored in the command, `handle_params_positional`)
+  leaves the mapping's entries under `names[i]` as they are in `m₁`;
+* `m₁` differs from the mapping at most under `max_samples`; without an extra positional argument
+  nothing positional touches the mapping at all (`m₁ = mapping`, all arguments are bound to names);
+* the extra positional argument (more arguments than names) is stored in the mapping under
+  `max_samples` and is not among the arguments bound into the command;
+* frame: the command's entries under a key that is neither bound positionally nor given by keyword,
+  and the mapping's entries under a key not given by keyword, are untouched — together with
+  `handle_params_positional` and `handle_params_keyword_exactly_one` this determines the new command
+  and mapping completely, and the extra argument occurs nowhere in the description of the command. -/
+theorem handle_params_positional_exactly_one (names : List String) (command mapping : Dict PV) (args : List PV)
+    (kw c m : Dict PV) (h : handleParams names command mapping args kw = .ok (c, m)) :
+    let rest := (splitArgs names args mapping).1
+    let m₁ := (splitArgs names args mapping).2
+    (∀ i (_ : i < rest.length) (h2 : i < names.length), atKey m names[i] = atKey m₁ names[i]) ∧
+    (∀ k, k ≠ "max_samples" → atKey m₁ k = atKey mapping k) ∧
+    (args.length ≤ names.length → rest = args ∧ m₁ = mapping) ∧
+    (names.length < args.length → ∃ x, args.getLast? = some x ∧ rest = args.dropLast ∧
+      m₁ = dset mapping "max_samples" x) ∧
+    (∀ k, k ∉ names.take rest.length → dget kw k = none → atKey c k = atKey command k) ∧
+    (∀ k, dget kw k = none → atKey m k = atKey m₁ k) := by
+  intro rest m₁
+  obtain ⟨c₁, hb, rfl, rfl, -⟩ := handleParams_ok _ _ _ _ _ _ _ h
+  have hframe : ∀ k, dget kw k = none →
+      atKey (fill m₁ (fill c₁ kw).2).1 k = atKey m₁ k := fun k hk =>
+    fill_atKey _ _ k (Or.inr (fill_none_stays c₁ kw k hk))
+  refine ⟨?_, ?_, ?_, ?_, ?_, hframe⟩
+  · intro i h1 h2
+    exact hframe _ (bindPositional_kw_none kw rest names command c₁ hb i h1 h2)
+  · intro k hk; exact splitArgs_atKey names args mapping k hk
+  · intro hle
+    have := splitArgs_no_extra names args mapping hle
+    exact ⟨congrArg Prod.fst this, congrArg Prod.snd this⟩
+  · intro hlt
+    obtain ⟨x, hx, hs⟩ := handle_params_extra_positional names args mapping hlt
+    exact ⟨x, hx, congrArg Prod.fst hs, congrArg Prod.snd hs⟩
+  · intro k hk hkw
+    rw [fill_atKey c₁ kw k (Or.inr hkw)]
+    exact bindPositional_atKey_other kw rest names command c₁ hb k hk
+
+/-- non-vacuity: one bound positional argument and one extra (`job.execute_async(500, 7)` on a job with
+one parameter name: 500 is the command's `max_samples`, 7 the mapping's) -/
+example : handleParams ["max_samples"] [("max_samples", .none)] [] [.int 500, .int 7] [] =
+    .ok ([("max_samples", .int 500)], [("max_samples", .int 7)]) := rfl
+
+/-! ## iterations: checked against a processor this very session had -/
+
+/-- **sent_iterations_were_checked_in_session** (strengthens `sent_iterations_were_checked`, whose
+processor was existentially quantified over ALL experiments).  Over every history from the initial
+state: every iteration of every request the platform has received was accepted by `_check_iteration`
+against the processor the session held after some PREFIX of that history (the moment the iteration was
+added). -/
+theorem sent_iterations_were_checked_in_session (pf : Platform) (ops : List Op) :
+    ∀ s ∈ (exec step (World.init pf) ops).log, ∀ it ∈ s.iterator,
+      ∃ pre post e, pre ++ post = ops ∧ (exec step (World.init pf) pre).exp = some e ∧
+        checkIteration pf e it = none :=
+  (itersSat_exec pf ops ops [] rfl
+    ⟨fun s hs => (by cases hs), fun ji hji => (by cases hji), fun s hs => (by cases hs)⟩).log
+
+/-- **sent_iterated_inputs_were_in_window.**  … hence every iterated input state the platform receives
+had the size of the modes of interest of that (well-formed) processor and `n_state + n_heralds` inside
+the platform's photon-count window. -/
+theorem sent_iterated_inputs_were_in_window (pf : Platform) (ops : List Op) :
+    ∀ s ∈ (exec step (World.init pf) ops).log, ∀ it ∈ s.iterator, ∀ st, ("input_state", IV.state st) ∈ it →
+      ∃ pre post e, pre ++ post = ops ∧ (exec step (World.init pf) pre).exp = some e ∧ e.WF ∧
+        st.length = e.m ∧ (∀ mx, pf.maxPhotons = some mx → st.sum + heraldSum e ≤ mx) ∧
+        (∀ mn, pf.minPhotons = some mn → mn ≤ st.sum + heraldSum e) := by
+  intro s hs it hit st hst
+  obtain ⟨pre, post, e, hpp, he, hc⟩ := sent_iterations_were_checked_in_session pf ops s hs it hit
+  obtain ⟨h1, h2, h3⟩ := (iteration_constraints_enforced pf e it hc).1 st hst
+  exact ⟨pre, post, e, hpp, he, wf_invariant pf pre e he, h1, h2, h3⟩
+
+/-- non-vacuity: a job with one iterated input state, executed -/
+example : ((exec step (World.init ⟨none, none, some 2, none, ["probs"]⟩)
+    [.newRemote false 2 0 [] none, .setFilter (some 0), .newSampler (.int 100),
+     .addIterations [[("input_state", .state [1, 1])]], .createJob .probs, .execute 0 [] [] .ok]).log.map
+      (fun s => s.iterator)) = [[[("input_state", .state [1, 1])]]] := by decide
+
+/-! ## what is still NOT proved (validated by the correspondence only)
+
+* that the relabelled circuit / post-selection symbol denotes the matrix / predicate actually sent,
+  and that `P.set_value`, `set_circuit`, `add` make `linear_circuit()` denote the new matrix: circuits
+  are symbols here (C10's and C15's subject); "deserialising yields the same objects" relies on the real
+  decoders.
+* `n_user + n_heralds = n(transmitted state)` for a stored input that a LATER `add_herald` left behind:
+  false in the model (see the `example` after `photons_user_plus_heralds`), the stale state is
+  transmitted as stored and the window is enforced on `n_user + n_heralds`, not on `n(t)`.
+* an iteration is judged against the processor as it was when the iteration was added
+  (`sent_iterations_were_checked_in_session`: some prefix of the history), not as it is when the job is
+  created or sent: the code does not re-check, so no stronger statement holds.
+-/
 
 end PM.C16
